@@ -823,8 +823,10 @@ func execute(c caseSpec, o *oracle) (viol []violation, err error) {
 var (
 	methods   = []string{"GET", "POST"}
 	urls      = []string{"h.com/a", "h.com/b", "h.com/a/b"}
-	idValues  = []string{"", "1", "2"}
-	orgValues = []string{"", "x"}
+	// values shared between different parameters, and values holding the separator a naive join would use:
+	// {id:7} / {zzz:7} and {id:"1.x"} / {id:"1", org:"x"} are different keys
+	idValues  = []string{"", "1", "2", "7", "1.x", "x"}
+	orgValues = []string{"", "x", "1", "7", "x.1"}
 )
 
 type intent struct {
@@ -851,7 +853,7 @@ func genKeyPool(t *rapid.T, plugin string) []keySpec {
 			k.Params = map[string]string{
 				"id":  rapid.SampledFrom(idValues).Draw(t, "id"),
 				"org": rapid.SampledFrom(orgValues).Draw(t, "org"),
-				"zzz": rapid.SampledFrom([]string{"", "7"}).Draw(t, "zzz"),
+				"zzz": rapid.SampledFrom([]string{"", "7", "1", "x"}).Draw(t, "zzz"),
 			}
 		}
 		out = append(out, k)
